@@ -150,11 +150,11 @@ Proof.
   apply H. unfold all_flags. rewrite !in_app_iff. do 4 right. left. apply in_map. now apply in_map.
 Qed.
 
-(* which language sub-sections each CLI option is also written into (the nesting defect is confined to rust,
+(* which language sub-sections each CLI option is also written into (nesting: all four languages, repaired;
    the srp defect concerns every language sub-section) *)
 Definition row_langs (r : orow) : string * string * list string := match r with (c, o, _, _, langs) => (c, o, langs) end.
 Fact F_override_langs : map row_langs cli_overrides =
-  [("nesting", "--max-depth", ["python"; "typescript"; "javascript"]); ("srp", "--max-methods", []); ("srp", "--max-loc", []);
+  [("nesting", "--max-depth", ["python"; "typescript"; "javascript"; "rust"]); ("srp", "--max-methods", []); ("srp", "--max-loc", []);
    ("dry", "--min-lines", []); ("pipeline", "--min-continues", [])].
 Proof. reflexivity. Qed.
 
@@ -377,7 +377,7 @@ Proof.
 Qed.
 
 (* ------------------------------------------------------------------ 7. the claimed vector outside the defect classes *)
-(* For the vector claimed for the current tree: on projects configured by .thailint.yaml only (or not at all),
+(* For the vector claimed for the current tree: on projects configured by .thailint.yaml and/or .thailint.json (or not at all),
    without CLI threshold options, for units none of whose flags is listed, the faithful model equals the
    specification (the listed defects are confined to the other carriers, CLI options and the listed units). *)
 Definition unit_clean (u : string) : bool :=
@@ -386,12 +386,13 @@ Definition unit_clean (u : string) : bool :=
 
 Definition clean_units : list string := filter unit_clean units.
 Example clean_units_are :
-  clean_units = ["nesting"; "srp"; "magic-numbers"; "print-statements"; "method-property"; "stringly-typed"; "lbyl"; "cqs"; "performance"].
+  clean_units = ["nesting"; "srp"; "magic-numbers"; "print-statements"; "method-property"; "stringly-typed"; "lbyl"; "cqs"; "performance";
+                 "unwrap-abuse"; "clone-abuse"; "blocking-async"].
 Proof. vm_compute. reflexivity. Qed.
 
 Theorem actual_partial c :
   unit_clean (c_unit c) = true -> case_good c = true -> lang_good c = true ->
-  p_json (c_proj c) = Absent -> p_pyproject (c_proj c) = Absent -> p_dash (c_proj c) = None -> c_overrides c = [] ->
+  p_pyproject (c_proj c) = Absent -> p_dash (c_proj c) = None -> c_overrides c = [] ->
   (* no guarded option is given as a non-number and the top-level values are valid: the wrong-type, retry and
      shadowed-value defects are excluded *)
   (forall k raw, spec_selected c = LDoc k raw ->
@@ -400,9 +401,8 @@ Theorem actual_partial c :
      guard_status (doc_opts (c_unit c)) (doc_guards (c_unit c)) (spec_res_top c (section_of (c_unit c) raw)) = StOk) ->
   run config_actual c = spec c.
 Proof.
-  intros U G L J P D O T V.
+  intros U G L P D O T V.
   unfold unit_clean in U. rewrite !andb_true_iff, !negb_true_iff in U. destruct U as [[[U1 U2] U3] U4].
   apply run_confined; [|exact G|exact L].
   constructor; try assumption; try (right; assumption).
-  right. rewrite P. discriminate.
 Qed.
